@@ -172,11 +172,13 @@ CLAIMED.update({
               'The Python monitor checks the same two clauses on every explored real run.'),
     'C02': pm('Theorems C02_outcome_agrees / C02_nothing_reported_while_live / C02_future_resolved_iff_terminated: for every history, '
               'terminal <=> future resolved, with exactly the outcome of the state object, closed, cleanups run once, one terminal '
-              'notification; while live nothing is reported. "step_until_terminated() returns": C02_stepper_returns_partial (from any '
-              'terminated configuration whose stepping coroutine is not blocked on an unreleased future, finitely many wake-ups end '
-              'it) + C02_termination_releases_pause + C02_leaving_waiting_completes_wait; the invariant joining them over all '
-              'histories (def C02_stepper_returns_full) is not proved and is decided by the correspondence (task status compared '
-              'after every op) and the monitor.'),
+              'notification; while live nothing is reported. "step_until_terminated() returns": C02_stepper_returns (for every program '
+              'and every history, in a terminated configuration finitely many wake-ups of the stepping task end it normally), from '
+              'the linking invariant Inv10 over all reachable configurations (PM/Proof10.lean): C02_stepper_never_crashes, '
+              'C02_waiting_stepper_is_released, C02_paused_stepper_is_released; plus the configuration-level '
+              'C02_stepper_returns_partial and the release lemmas C02_termination_releases_pause / '
+              'C02_leaving_waiting_completes_wait. The correspondence (task status compared after every op) and the monitor tie '
+              'the model to the code.'),
     'C04': pm('Theorems C04_kill_total, C04_kill_when_idle, C04_kill_committed (after kill() handed back an action, every further '
               'history leaves the process KILLED, EXCEPTED or with that kill still the pending interrupt action), '
               'C04_end_of_step_kills, C04_pause_keeps_kill, C04_second_kill_same_action, C04_no_stale_killing and '
